@@ -210,6 +210,20 @@ func traceDest(P *Prog, start ssa.Value) []string {
 					}
 				}
 			case *ssa.Phi:
+				// a merge of the decoded number with some other number (a "normalised" or defaulted
+				// value) is not the decoded number any more: only merges of containers (slices being
+				// appended to) and trivial merges are followed
+				if _, isBasic := x.Type().Underlying().(*types.Basic); isBasic {
+					foreign := false
+					for _, e := range x.Edges {
+						if e != v && e != ssa.Value(x) {
+							foreign = true
+						}
+					}
+					if foreign {
+						continue
+					}
+				}
 				visit(x, depth+1)
 			case *ssa.Store:
 				if x.Val != v {
